@@ -27,6 +27,7 @@ def init():
         MISSING=MISSING, EMPTY=EMPTY, UNCHANGED=UNCHANGED, Attr=Attr, spec_class=spec_class, mod=spec_classes
     )
     _FAMILY_CACHE.clear()
+    _EFF_CACHE.clear()
 
 
 def S(name):
@@ -446,6 +447,20 @@ def union_members(t):
 #               (dk "prop": the attribute is backed by an overridable `spec_property` whose getter returns `d`:
 #                no default of its own, `getattr` without an override finds `d`)
 #    "over": {"<attr>": value tokens},        # class-body default overrides of inherited attributes
+#    "reann": {"<attr>": value tokens|None},  # spec subclass: inherited attribute annotated again (same type), with or without a value
+#    "redecl": {"<attr>": {"dk": "attr|attrfactory|attrnone|field|fieldfactory", "d": value tokens|None, "ann": bool,
+#                          "dprep": id|None, "dip": id|None}},
+#                                             # spec subclass: inherited attribute given a new `Attr(...)` / `field(...)` object
+#                                             # (annotated again or not), with callbacks registered by decorator
+#    "pm": {"<attr>": preparer id}, "ipm": {"<attr>": preparer id},
+#                                             # `_prepare_<attr>` / `_prepare_<item>` methods defined in this (spec or plain)
+#                                             # subclass body for inherited attributes
+#  HOW a callback is declared (attribute description): "prep" / "ip" = `_prepare_<attr>` / `_prepare_<item>` METHODS of the
+#  class body; "dprep" / "dip" = registered with the `@<attr>.preparer` / `@<attr>.item_preparer` DECORATORS of the `Attr(...)`
+#  object of the body (dk "attr" / "attrfactory" / "attrnone" = `Attr()` without default, or any attribute with "inv").
+#  A family that uses "dprep"/"dip"/"redecl"/"pm"/"ipm" carries "decl": True; `effective_attrs` then resolves which callback
+#  applies to each class (`doc_preparer`, a reading of the documentation; "prep_undoc"/"ip_undoc" where it does not say) and
+#  `pdecl_lines` hands the raw declarations to the Lean model, which resolves them itself (`Decl.bootstrap`).
 #    "ovf": attr}                             # spec_class(init_overflow_attr=<attr>): extra constructor keywords
 #                                             # are collected into the Dict[str, Any] attribute <attr>
 
@@ -457,8 +472,24 @@ def class_desc(fam, cid):
     raise KeyError(cid)
 
 
+_EFF_CACHE = {}
+
+
 def effective_attrs(fam, cid):
-    """attributes of class `cid` in metadata order with the defaults an instance of `cid` gets"""
+    """attributes of class `cid` in metadata order with the defaults an instance of `cid` gets (and, for a family with
+    declared callbacks — "decl": True, complete and no longer edited —, the callbacks that apply to `cid`)"""
+    if not fam.get("decl"):
+        return _effective_attrs(fam, cid)
+    hit = _EFF_CACHE.get((id(fam), cid))
+    if hit is None or hit[0] is not fam:
+        if len(_EFF_CACHE) > 20000:
+            _EFF_CACHE.clear()
+        hit = (fam, _effective_attrs(fam, cid))
+        _EFF_CACHE[(id(fam), cid)] = hit
+    return [dict(ad) for ad in hit[1]]
+
+
+def _effective_attrs(fam, cid):
     cd = class_desc(fam, cid)
     out = []
     if cd.get("base") is not None:
@@ -481,8 +512,21 @@ def effective_attrs(fam, cid):
                 else:
                     # no value in the subclass body: the base class attribute (its default) is still found
                     pass
+    for a, rd in (cd.get("redecl") or {}).items():
+        # a new `Attr(...)` / `field(...)` object in this spec subclass: it owns the attribute from here on (position
+        # kept); default, factory and `invalidated_by` are those of the new object
+        for ad in out:
+            if ad["name"] == int(a):
+                ad["owner"] = cid
+                ad["dk"] = rd["dk"]
+                ad["d"] = rd.get("d")
+                ad.pop("inv", None)
     for ad in cd.get("attrs", []):
         out.append(dict(ad, owner=cid))
+    if fam.get("decl"):
+        for ad in out:
+            ad["prep"], ad["prep_undoc"] = doc_preparer(decl_chain(fam, cid, ad["name"], "p"))
+            ad["ip"], ad["ip_undoc"] = doc_preparer(decl_chain(fam, cid, ad["name"], "i"))
     if cd.get("ovf") is not None:
         # `init_overflow_attr`: managed as Dict[str, Any], after the annotated attributes, no default
         out.append({"name": cd["ovf"], "ty": OVF_TY, "dk": "none", "d": None, "prep": None, "ip": None,
@@ -538,6 +582,92 @@ def supers(fam, cid):
     return [cd["base"]] + supers(fam, cd["base"])
 
 
+ATTR_OBJECT_KINDS = ("factory", "attrfactory", "attr", "attrnone", "field", "fieldfactory")
+
+
+def decl_chain(fam, cid, a, which):
+    """what the class bodies of the hierarchy of `cid` say about attribute `a` and its preparer (`which` = "p") or item
+    preparer ("i"): layers ROOT FIRST, from the class that introduces the attribute down to `cid`;
+    layer = {"cid", "spec": decorated?, "body": "-" nothing | "v" plain value | "a" annotation | "A" Attr/field object,
+             "deco": callback registered with the decorator on that object, "method": `_prepare_…` method of the body}"""
+    dkey, mkey, pmkey = ("dprep", "prep", "pm") if which == "p" else ("dip", "ip", "ipm")
+    out = []
+    for c in reversed([cid] + supers(fam, cid)):
+        cd = class_desc(fam, c)
+        spec = cd["kind"] == "spec"
+        own = [ad for ad in cd.get("attrs", []) if ad["name"] == a]
+        sa = str(a)
+        if own:
+            ad = own[0]
+            obj = ad.get("dk") in ATTR_OBJECT_KINDS or bool(ad.get("inv")) or ad.get("dprep") is not None \
+                or ad.get("dip") is not None
+            out = [{"cid": c, "spec": spec, "body": "A" if obj else "a", "deco": ad.get(dkey), "method": ad.get(mkey)}]
+            continue
+        if not out:
+            continue          # the attribute does not exist yet
+        method = (cd.get(pmkey) or {}).get(sa)
+        if sa in (cd.get("redecl") or {}):
+            out.append({"cid": c, "spec": spec, "body": "A", "deco": cd["redecl"][sa].get(dkey), "method": method})
+        elif sa in (cd.get("reann") or {}):
+            out.append({"cid": c, "spec": spec, "body": "a", "deco": None, "method": method})
+        elif sa in (cd.get("over") or {}):
+            out.append({"cid": c, "spec": spec, "body": "v", "deco": None, "method": method})
+        else:
+            out.append({"cid": c, "spec": spec, "body": "-", "deco": None, "method": method})
+    return out
+
+
+def doc_preparer(chain):
+    """Which callback the documentation gives the attribute for the class at the END of `chain` (written from
+    docsite/docs/usage/advanced.md "Typecasting/preparation" and examples/preparation.md; NOT from the code):
+    `_prepare_<attr>` methods "are detected" — a method is a class member and is inherited like one —, and an `Attr`
+    object carries what its decorators registered.  -> (preparer id | None, undocumented?)
+    A subclass that merely re-defaults the attribute (`a = 3`) declares a new default, nothing else: the callbacks of
+    its parent still apply (bootstrap's own comment: "the rest of the inherited configuration still applies").
+    Not described (True): a body that has both spellings with different callbacks; a decorator registration when a
+    method of the conventional name is also in sight, or when a nearer class declares the attribute anew by annotation
+    or with a new `Attr` object; a method overridden by a class that does not mention the attribute (the library never
+    looks at that class's body again)."""
+    near = list(reversed(chain))
+    for i, L in enumerate(near):
+        m, d = L["method"], L["deco"]
+        if m is None and d is None:
+            continue
+        mentioned_nearer = any(x["spec"] and x["body"] != "-" for x in near[:i])
+        redeclared_nearer = any(x["spec"] and x["body"] in ("a", "A") for x in near[:i])
+        if m is not None and d is not None:
+            return m, m != d
+        if m is not None:
+            return m, not ((L["spec"] and L["body"] != "-") or mentioned_nearer)
+        method_above = any(x["method"] is not None for x in near[i + 1:])
+        return d, redeclared_nearer or method_above
+    return None, False
+
+
+def pdecl_lines(fam):
+    """`pdecl <class> <attr> p|i <n> (layer)…` protocol lines (after the `class` lines): the raw declarations of every
+    preparer / item preparer, for the Lean model to resolve (`Decl.bootstrap`)"""
+    out = []
+    for cd in fam["classes"]:
+        cid = cd["id"]
+        for ad in effective_attrs(fam, cid):
+            if ad.get("ovf"):
+                continue
+            for which in ("p", "i"):
+                ch = decl_chain(fam, cid, ad["name"], which)
+                if not any(L["deco"] is not None or L["method"] is not None for L in ch):
+                    continue
+                if which == "i" and ad["ty"][0] not in ("list", "set", "dict", "mseq", "mset", "mmap"):
+                    continue          # `prepare_item` is looked up for collections only
+                parts = ["pdecl", str(cid), str(ad["name"]), which, str(len(ch))]
+                for L in ch:
+                    parts += ["s" if L["spec"] else "p", L["body"],
+                              "_" if L["deco"] is None else str(L["deco"]),
+                              "_" if L["method"] is None else str(L["method"])]
+                out.append(" ".join(parts))
+    return out
+
+
 def class_lines(fam):
     """`class …` protocol lines of the family (after a `reset` line)"""
     lines = []
@@ -564,6 +694,43 @@ def class_lines(fam):
     return lines
 
 
+def _as_method(f):
+    return lambda self, v: f(self, v)
+
+
+def _attr_object(dk, d, inv, classes):
+    """the `Attr(...)` / `dataclasses.field(...)` object of a class body"""
+    Attr = _sc["Attr"]
+    kw = {"invalidated_by": inv} if inv else {}
+    if dk in ("factory", "attrfactory"):
+        return Attr(default_factory=(lambda d=d: decode(d, classes)), **kw)
+    if dk == "attr":
+        return Attr(default=decode(d, classes), **kw)
+    if dk == "attrnone":
+        return Attr(**kw)
+    if dk == "field":
+        return dataclasses.field(default=decode(d, classes))
+    if dk == "fieldfactory":
+        return dataclasses.field(default_factory=(lambda d=d: decode(d, classes)))
+    raise ValueError(f"not an Attr/field kind: {dk}")
+
+
+def _decorate(ns, name, dprep, dip):
+    """what
+           @<name>.preparer            @<name>.item_preparer
+           def _(self, v): ...         def _(self, v): ...
+    in a class body does: the callback is registered on the `Attr` object and the name `_` is bound to that object"""
+    if dprep is None and dip is None:
+        return
+    obj = ns.get(name)
+    if not isinstance(obj, _sc["Attr"]):
+        raise ValueError(f"decorator spelling needs an Attr(...) object for {name}")
+    if dprep is not None:
+        ns["_"] = obj.preparer(_as_method(PREPARERS[dprep]))
+    if dip is not None:
+        ns["_"] = obj.item_preparer(_as_method(PREPARERS[dip]))
+
+
 def build_family(fam, fresh=False):
     """family description -> {class id: real class}; cached per description (`fresh`: new classes, not cached)"""
     key = json.dumps(fam, sort_keys=True)
@@ -577,7 +744,18 @@ def build_family(fam, fresh=False):
         ns = {"__module__": "verif_family", "__qualname__": f"C{cid}"}
         for a, d in (cd.get("over") or {}).items():
             ns[attr_name(int(a))] = decode(d, classes)
+        for a, pid in (cd.get("pm") or {}).items():
+            ns[f"_prepare_{attr_name(int(a))}"] = _as_method(PREPARERS[pid])
+        for a, pid in (cd.get("ipm") or {}).items():
+            ns[f"_prepare_{attr_name(int(a))}_item"] = _as_method(PREPARERS[pid])
         reann = {}
+        for a, rd in (cd.get("redecl") or {}).items():
+            name = attr_name(int(a))
+            if rd.get("ann"):
+                base_ad = [x for x in effective_attrs(fam, cd["base"]) if x["name"] == int(a)][0]
+                reann[name] = ty_real(base_ad["ty"], classes)
+            ns[name] = _attr_object(rd["dk"], rd.get("d"), None, classes)
+            _decorate(ns, name, rd.get("dprep"), rd.get("dip"))
         for a, d in (cd.get("reann") or {}).items():
             base_ad = [x for x in effective_attrs(fam, cd["base"]) if x["name"] == int(a)][0]
             reann[attr_name(int(a))] = ty_real(base_ad["ty"], classes)
@@ -609,6 +787,10 @@ def build_family(fam, fresh=False):
                     ns[name] = dataclasses.field(default=decode(d, classes))
                 elif dk == "fieldfactory":
                     ns[name] = dataclasses.field(default_factory=(lambda d=d: decode(d, classes)))
+                elif dk == "attrnone":
+                    ns[name] = Attr()
+                # the documented decorator spelling: `@<attr>.preparer` / `@<attr>.item_preparer` on the `Attr(...)` object
+                _decorate(ns, name, ad.get("dprep"), ad.get("dip"))
                 if ad.get("prep") is not None:
                     ns[f"_prepare_{name}"] = (lambda f: (lambda self, v: f(self, v)))(PREPARERS[ad["prep"]])
                 if ad.get("ip") is not None:
